@@ -103,6 +103,10 @@ class Types:
                     tt = self.parse(args[1]); return tt.args[int(args[0])]
                 if head in ('std::vector',) and tail in ('::value_type', '::reference', '::const_reference'):
                     return self.parse(args[0])
+                if head in ('std::basic_string_view', 'std::basic_string') and tail in ('::const_pointer', '::pointer'):
+                    return T('ptr', args=[T('prim', 'char')])
+                if head in ('std::basic_string_view', 'std::basic_string') and tail in ('::size_type',):
+                    return T('prim', 'uint64_t')
                 if head == '__gnu_cxx::__alloc_traits' and tail in ('::value_type', '::reference', '::const_reference'):
                     return self.parse(args[1])
                 if head == 'std::vector' and tail in ('::iterator', '::const_iterator'):
